@@ -203,12 +203,15 @@ def sepBy (sep : Tok) : List (List Tok) → List Tok
 
 def signToks (n : Int) : List Tok := if n < 0 then [.sym .sub] else []
 
+/-- the DURATION token of `<n>s`: parseDuration rejects a zero duration -/
+def durTok (n : Nat) : Tok := .dur (if n = 0 then none else some n)
+
 /-- `%ds` -/
-def printDurS (n : Int) : List Tok := signToks n ++ [.dur (some n.natAbs)]
+def printDurS (n : Int) : List Tok := signToks n ++ [durTok n.natAbs]
 
 def printAt : AtMod → List Tok
   | .none => []
-  | .ts n => .att :: signToks n ++ [.word (.num none (some n.natAbs) (some (-(n.natAbs : Int)))) (fmt3 n.natAbs)]
+  | .ts n => .att :: signToks n ++ [.word (.num (some (fmt3 n.natAbs)) (some n.natAbs) (some (-(n.natAbs : Int)))) (fmt3 n.natAbs)]
   | .start => [.att, kwTok "START", .lp, .rp]
   | .stop => [.att, kwTok "END", .lp, .rp]
 
@@ -246,11 +249,11 @@ def printSel (v : Variant) (s : Sel) : List Tok :=
   printSelHead v s ++ printAt s.atm ++ printOffEx v s.offEx ++ printOffset (v == .fixed) s.off
 
 def printMat (v : Variant) (s : Sel) (range : Nat) : List Tok :=
-  printSelHead v s ++ .lb :: .dur (some range) :: .rb :: printAt s.atm ++ printOffEx v s.offEx ++ printOffset true s.off
+  printSelHead v s ++ .lb :: durTok range :: .rb :: printAt s.atm ++ printOffEx v s.offEx ++ printOffset true s.off
 
 def printSubSuffix (v : Variant) (range step : Nat) (a : AtMod) (off : Int) : List Tok :=
   match v with
-  | .fixed => .lb :: .dur (some range) :: .colon :: (if step = 0 then [] else [.dur (some step)]) ++ .rb :: printAt a ++ printOffset true off
+  | .fixed => .lb :: durTok range :: .colon :: (if step = 0 then [] else [durTok step]) ++ .rb :: printAt a ++ printOffset true off
   | .old => .lb :: .err :: printAt a ++ printOffset false off      -- "[300:1]": the lexer stops with "missing unit character"
 
 def numTok (mag : String) : Tok := .word (.num (some mag) none none) mag
@@ -289,7 +292,7 @@ def printExpr (v : Variant) : Expr → List Tok
   | .un neg e => .sym (if neg then .sub else .add) :: printExpr v e
   | .bin op m l r => printExpr v l ++ opTok op :: printBinMod v m ++ printExpr v r
   | .agg op wo gr args => kwTok op :: printAggMod wo gr ++ .lp :: printArgs v args ++ [.rp]
-  | .call fn args => .word .ident fn :: .lp :: printArgs v args ++ [.rp]
+  | .call fn args => wordTok fn :: .lp :: printArgs v args ++ [.rp]
 def printArgs (v : Variant) : Args → List Tok
   | .nil => []
   | .cons e rest => match rest with
@@ -527,13 +530,73 @@ def parseSelector (f : Nat) (name : String) : List Tok → Option (Expr × List 
 
 /-! ## parser: expressions (fuel = recursion depth) -/
 
+/-- function_call_body after the `(`; `pa` parses a non-empty argument list up to and including the `)` -/
+def parseArgsWith (pa : List Tok → Option (Args × List Tok)) : List Tok → Option (Args × List Tok)
+  | .rp :: ts => some (.nil, ts)
+  | ts => pa ts
+
+/-- the aggregate_modifier after the body, if any -/
+def parseAggSuffix (op : String) (args : Args) : List Tok → Option (Expr × List Tok)
+  | .word (.kw m) t :: ts =>
+    if isGroupingKw m then
+      match parseLabels ts with
+      | some (ls, ts') => mkAgg op (m = "WITHOUT") ls args ts'
+      | none => none
+    else mkAgg op false [] args (.word (.kw m) t :: ts)
+  | ts => mkAgg op false [] args ts
+
+/-- aggregate_expr after the operator -/
+def parseAggWith (pa : List Tok → Option (Args × List Tok)) (op : String) : List Tok → Option (Expr × List Tok)
+  | .lp :: ts => match parseArgsWith pa ts with
+    | some (args, ts') => parseAggSuffix op args ts'
+    | none => none
+  | .word (.kw m) _ :: ts =>
+    if isGroupingKw m then
+      match parseLabels ts with
+      | some (ls, .lp :: ts') => match parseArgsWith pa ts' with
+        | some (args, ts'') => mkAgg op (m = "WITHOUT") ls args ts''
+        | none => none
+      | _ => none
+    else none
+  | _ => none
+
+/-- an operand that starts with a word: number_literal, function_call, aggregate_expr or vector_selector -/
+def parseWordWith (pa : List Tok → Option (Args × List Tok)) (f : Nat) (k : WKind) (t : String) (ts : List Tok) :
+    Option (Expr × List Tok) :=
+  match k with
+  | .num v _ _ => match v with
+    | some mag => some (.num ⟨false, mag⟩, ts)
+    | none => none
+  | .ident => match ts with
+    | .lp :: ts1 =>
+      if isFunction t then
+        match parseArgsWith pa ts1 with
+        | some (args, ts2) => some (.call t args, ts2)
+        | none => none
+      else none
+    | _ => parseSelector f t ts
+  | .mident => parseSelector f t ts
+  | .kw n =>
+    if isAggOp n && startsAgg ts then parseAggWith pa n ts
+    else if isMetricIdent (.kw n) then parseSelector f t ts
+    else none
+
 mutual
-/-- expr with every binary operator of precedence ≥ p -/
+/-- expr with every binary operator of precedence ≥ p: unary_expr or an operand with its postfix modifiers, then the loop -/
 def parseExpr : Nat → Nat → List Tok → Option (Expr × List Tok)
   | 0, _, _ => none
-  | f + 1, p, ts => match parseUnary f ts with
-    | none => none
-    | some (a, ts') => parseLoop f p a ts'
+  | f + 1, p, ts => match ts with
+    | .sym .add :: ts1 => match parseExpr f unaryOperandPrec ts1 with
+      | some (x, ts2) => parseLoop f p (mkUnary false x) ts2
+      | none => none
+    | .sym .sub :: ts1 => match parseExpr f unaryOperandPrec ts1 with
+      | some (x, ts2) => parseLoop f p (mkUnary true x) ts2
+      | none => none
+    | ts => match parseAtom f ts with
+      | some (a, ts1) => match parsePostfix f a ts1 with
+        | some (a', ts2) => parseLoop f p a' ts2
+        | none => none
+      | none => none
 
 /-- the binary-operator loop: lhs is complete, continue while the next operator has precedence ≥ p -/
 def parseLoop : Nat → Nat → Expr → List Tok → Option (Expr × List Tok)
@@ -550,25 +613,11 @@ def parseLoop : Nat → Nat → Expr → List Tok → Option (Expr × List Tok)
             | none => none
             | some (r, ts3) => parseLoop f p (.bin o m lhs r) ts3
 
-/-- unary_expr or an operand with its postfix modifiers -/
-def parseUnary : Nat → List Tok → Option (Expr × List Tok)
-  | 0, _ => none
-  | f + 1, ts => match ts with
-    | .sym .add :: ts1 => match parseExpr f unaryOperandPrec ts1 with
-      | some (x, ts2) => some (mkUnary false x, ts2)
-      | none => none
-    | .sym .sub :: ts1 => match parseExpr f unaryOperandPrec ts1 with
-      | some (x, ts2) => some (mkUnary true x, ts2)
-      | none => none
-    | ts => match parseAtom f ts with
-      | some (a, ts1) => parsePostfix f a ts1
-      | none => none
-
 /-- number_literal, string_literal, paren_expr, vector_selector, function_call, aggregate_expr -/
 def parseAtom : Nat → List Tok → Option (Expr × List Tok)
   | 0, _ => none
   | f + 1, ts => match ts with
-    | .word k t :: ts1 => parseWord f k t ts1
+    | .word k t :: ts1 => parseWordWith (parseArgs1 f) f k t ts1
     | .str v uok _ :: ts1 => if uok then some (.str v, ts1) else none
     | .lp :: ts1 => match parseExpr f 0 ts1 with
       | some (e, .rp :: ts2) => some (.par e, ts2)
@@ -576,57 +625,7 @@ def parseAtom : Nat → List Tok → Option (Expr × List Tok)
     | .lk :: ts1 => parseSelector f "" (.lk :: ts1)
     | _ => none
 
-def parseWord : Nat → WKind → String → List Tok → Option (Expr × List Tok)
-  | 0, _, _, _ => none
-  | f + 1, k, t, ts => match k with
-    | .num v _ _ => match v with
-      | some mag => some (.num ⟨false, mag⟩, ts)
-      | none => none
-    | .ident => match ts with
-      | .lp :: ts1 =>
-        if isFunction t then
-          match parseArgs f ts1 with
-          | some (args, ts2) => some (.call t args, ts2)
-          | none => none
-        else none
-      | _ => parseSelector f t ts
-    | .mident => parseSelector f t ts
-    | .kw n =>
-      if isAggOp n && startsAgg ts then parseAgg f n ts
-      else if isMetricIdent (.kw n) then parseSelector f t ts
-      else none
-
-/-- aggregate_expr after the operator -/
-def parseAgg : Nat → String → List Tok → Option (Expr × List Tok)
-  | 0, _, _ => none
-  | f + 1, op, ts => match ts with
-    | .lp :: ts1 => match parseArgs f ts1 with
-      | none => none
-      | some (args, ts2) => match ts2 with
-        | .word (.kw m) t :: ts3 =>
-          if isGroupingKw m then
-            match parseLabels ts3 with
-            | some (ls, ts4) => mkAgg op (m = "WITHOUT") ls args ts4
-            | none => none
-          else mkAgg op false [] args (.word (.kw m) t :: ts3)
-        | _ => mkAgg op false [] args ts2
-    | .word (.kw m) _ :: ts1 =>
-      if isGroupingKw m then
-        match parseLabels ts1 with
-        | some (ls, .lp :: ts2) => match parseArgs f ts2 with
-          | some (args, ts3) => mkAgg op (m = "WITHOUT") ls args ts3
-          | none => none
-        | _ => none
-      else none
-    | _ => none
-
-/-- function_call_body after the `(` -/
-def parseArgs : Nat → List Tok → Option (Args × List Tok)
-  | 0, _ => none
-  | f + 1, ts => match ts with
-    | .rp :: ts1 => some (.nil, ts1)
-    | ts => parseArgs1 f ts
-
+/-- function_call_args followed by `)` -/
 def parseArgs1 : Nat → List Tok → Option (Args × List Tok)
   | 0, _ => none
   | f + 1, ts => match parseExpr f 0 ts with
@@ -639,11 +638,88 @@ end
 
 def fuelFor (ts : List Tok) : Nat := 6 * ts.length + 16
 
-/-- ParseExpr at token level: `none` = the parser reports an error -/
-def parse (ts : List Tok) : Option Expr :=
-  if ts.contains .err then none
-  else match parseExpr (fuelFor ts) 0 ts with
-    | some (e, []) => some e
-    | _ => none
+def parseFuel (f : Nat) (ts : List Tok) : Option Expr :=
+  match parseExpr f 0 ts with
+  | some (e, []) => some e
+  | _ => none
+
+/-- ParseExpr at token level: `none` = the parser reports an error. (`Tok.err` matches no pattern below, so a token
+    stream with a lexer error is rejected like in parser.Lex.) -/
+def parse (ts : List Tok) : Option Expr := parseFuel (fuelFor ts) ts
+
+/-! ## well-formed trees: the shapes the parser can produce (hypothesis of the round-trip theorem; the driver
+     checks it on every tree the model parser returns) -/
+
+/-- a grouping / matching label that the lexer turns back into a token the grammar accepts as a label -/
+def okLabel (l : String) : Bool := labelOfTok (wordTok l) == some l
+
+def wfMod (m : BinMod) : Bool :=
+  decide (m.card ≤ 2) && (m.card != 0 || m.incl.isEmpty) && m.labels.all okLabel && m.incl.all okLabel
+
+
+def normSel (s : Sel) : Sel :=
+  if s.name = "" then s
+  else { s with ms := s.ms.filter (fun m => m != nameMatcher s.name) ++ [nameMatcher s.name] }
+
+mutual
+/-- the tree `parse` yields for the printed text: the matcher that repeats the metric name is kept once, last -/
+def norm : Expr → Expr
+  | .num n => .num n
+  | .str v => .str v
+  | .vec s => .vec (normSel s)
+  | .mat s r => .mat (normSel s) r
+  | .sub e r st a o => .sub (norm e) r st a o
+  | .par e => .par (norm e)
+  | .un n e => .un n (norm e)
+  | .bin o m l r => .bin o m (norm l) (norm r)
+  | .agg op wo g a => .agg op wo g (normArgs a)
+  | .call f a => .call f (normArgs a)
+def normArgs : Args → Args
+  | .nil => .nil
+  | .cons e r => .cons (norm e) (normArgs r)
+end
+
+/-- `e` may be parsed as a whole where operators of precedence ≥ p are consumed -/
+def fitsAt (p : Nat) : Expr → Bool
+  | .bin o _ _ _ => decide (p ≤ o.prec)
+  | _ => true
+
+/-- a binary operator of precedence `q` that follows `e` is not absorbed by the right edge of `e` -/
+def stopsBefore : Expr → Nat → Bool
+  | .bin o _ _ r, q => decide (q < rhsPrec o) && stopsBefore r q
+  | .un _ x, q => decide (q < unaryOperandPrec) && stopsBefore x q
+  | .num n, q => !n.neg || decide (q < unaryOperandPrec)
+  | _, _ => true
+
+def isNum : Expr → Bool
+  | .num _ => true
+  | _ => false
+
+/-- what a subquery range attaches to (a vector selector would become a range selector) -/
+def isOperand : Expr → Bool
+  | .num n => !n.neg
+  | .str _ | .mat _ _ | .sub _ _ _ _ _ | .par _ | .agg _ _ _ _ | .call _ _ => true
+  | _ => false
+
+def okSel (s : Sel) : Bool :=
+  (s.name == "" || isMetricIdent (classifyKind s.name)) && s.offEx.all (fun x => x != 0)
+
+mutual
+def wf : Expr → Bool
+  | .num n => !(n.neg && n.mag == "NaN")
+  | .str _ => true
+  | .vec s => okSel s
+  | .mat s r => okSel s && r != 0
+  | .sub e r st _ _ => wf e && isOperand e && r != 0 && decide (st ≤ 1)
+  | .par e => wf e
+  | .un _ x => wf x && !isNum x && fitsAt unaryOperandPrec x
+  | .bin o m l r => wf l && wf r && wfMod m && fitsAt o.prec l && stopsBefore l o.prec && fitsAt (rhsPrec o) r
+  | .agg op _ g a => isAggOp op && g.all okLabel && wfArgs a && a.length == desiredArgs op
+  | .call f a => isFunction f && classifyKind f == .ident && wfArgs a
+def wfArgs : Args → Bool
+  | .nil => true
+  | .cons e r => wf e && wfArgs r
+end
+
 
 end SH.PromSyntax
